@@ -47,7 +47,7 @@ func genC20(rt *rapid.T) interface{} {
 		sc.First = rapid.IntRange(0, 6000).Draw(rt, "firstv")
 	}
 	n := rapid.IntRange(1, tierScale(9)).Draw(rt, "nops")
-	kinds := []string{"restart", "restart", "restart", "pair-setup", "pair-add", "pair-add-again", "unpair", "unpair", "unpair-unknown", "set", "set", "probe", "pair-race", "pair-race"}
+	kinds := []string{"restart", "restart", "restart", "pair-setup", "pair-setup-damaged", "pair-add", "pair-add-again", "unpair", "unpair", "unpair-unknown", "set", "set", "probe", "pair-race", "pair-race"}
 	for i := 0; i < n; i++ {
 		op := C20Op{Kind: rapid.SampledFrom(kinds).Draw(rt, "kind"), Arg: rapid.IntRange(0, 11).Draw(rt, "arg")}
 		if op.Kind == "restart" && rapid.Bool().Draw(rt, "bigarg") {
@@ -319,6 +319,41 @@ func runC20(t *testing.T, sci interface{}) *Outcome {
 					pairings = append(pairings, c)
 					checkTXT(when + " after pair-setup")
 				}
+			case "pair-setup-damaged":
+				// somebody who knows the setup code gets as far as the key exchange, and that
+				// message is damaged (Arg even: a flipped bit in the sealed data; odd: correctly
+				// sealed, signed with another key). Nothing is stored, so nothing may change.
+				nctl++
+				c := ctl{id: fmt.Sprintf("controller-%d", nctl), kp: w.Keypair()}
+				other := w.Keypair()
+				o.Stats["fault.damaged_key_exchange"]++
+				if !runActor("pairer", func() {
+					cl, _ := w.NewClient("pairer")
+					cl.MutateM5 = func(enc, K []byte) []byte {
+						if op.Arg%2 == 0 {
+							enc = bytes.Clone(enc)
+							enc[(op.Arg/2)%len(enc)] ^= 0x10
+							return enc
+						}
+						encKey := ref.HKDF(K, "Pair-Setup-Encrypt-Salt", "Pair-Setup-Encrypt-Info")
+						return ref.SetupM5PayloadWith(encKey, K, c.id, c.kp.Pub, other.Priv)
+					}
+					res, err := cl.PairSetup(fmtPin(sc.Pin), c.id, c.kp)
+					if err == nil && res.ErrorCode == 0 {
+						violate("damaged-key-exchange-accepted", "%s: pair-setup with a damaged key exchange message was answered without an error", when)
+					}
+					cl.Conn.Close()
+				}) {
+					break
+				}
+				if es, err := w.Tr.VerifDatabase().Entities(); err == nil {
+					for _, e := range es {
+						if e.Name == c.id {
+							violate("damaged-key-exchange-stored", "%s: a pairing for %q is stored after a damaged key exchange", when, c.id)
+						}
+					}
+				}
+				checkTXT(when + " after a failed pair-setup")
 			case "pair-add", "pair-add-again", "unpair", "unpair-unknown", "probe":
 				if len(pairings) == 0 {
 					continue
